@@ -161,34 +161,72 @@ Notation eval_f := (eval sha256 ripemd160 sha1 f ck).
 Lemma eval_mono sv script stack : mono (eval_g sv script stack) (eval_f sv script stack).
 Proof. apply eval_script_mono. Qed.
 
-Lemma execute_witness_script_mono stack script :
-  mono (execute_witness_script_v0 sha256 ripemd160 sha1 g ck stack script) (execute_witness_script_v0 sha256 ripemd160 sha1 f ck stack script).
+Variable tap_commit : bytes -> bytes -> bytes -> bool.
+
+Lemma op_success_scan_mono ops ok r : op_success_scan g ops ok = r ->
+  match r with
+  | None => op_success_scan f ops ok = None
+  | Some rg => exists rf, op_success_scan f ops ok = Some rf /\ mono rg rf
+  end.
 Proof.
-  unfold execute_witness_script_v0.
-  match goal with |- context [existsb ?q stack] => destruct (existsb q stack) end; [apply mono_err_l|].
-  apply mono_bind; [apply eval_mono|intros; apply mono_refl].
+  intros <-. induction ops as [|p ops IH]; cbn [op_success_scan].
+  - destruct ok; [reflexivity|]. eexists; split; [reflexivity|apply mono_refl].
+  - destruct (is_op_success (p_code p)); [|exact IH].
+    eexists; split; [reflexivity|]. split_has Hle; mono_steps.
 Qed.
 
-(* the witness stage: if it is inside the model and succeeds under g, it is inside the model and succeeds under f *)
+Lemma execute_witness_script_mono sv stack script w :
+  mono (execute_witness_script sha256 ripemd160 sha1 g ck sv stack script w) (execute_witness_script sha256 ripemd160 sha1 f ck sv stack script w).
+Proof.
+  unfold execute_witness_script.
+  assert (Hscan : forall (rg : option (result unit)),
+            (if is_tapscript sv then let '(ops, ok) := parse_script script in op_success_scan g ops ok else None) = rg ->
+            match rg with
+            | None => (if is_tapscript sv then let '(ops, ok) := parse_script script in op_success_scan f ops ok else None) = None
+            | Some r => exists rf, (if is_tapscript sv then let '(ops, ok) := parse_script script in op_success_scan f ops ok else None) = Some rf /\ mono r rf
+            end).
+  { intros rg Hg. destruct (is_tapscript sv); [|subst; reflexivity]. destruct (parse_script script) as [ops ok].
+    apply op_success_scan_mono. exact Hg. }
+  specialize (Hscan _ eq_refl).
+  destruct (if is_tapscript sv then let '(ops, ok) := parse_script script in op_success_scan g ops ok else None) as [rg|].
+  - destruct Hscan as (rf & -> & Hm). exact Hm.
+  - rewrite Hscan.
+    destruct (is_tapscript sv && (lenz stack >? MAX_STACK_SIZE)); [apply mono_err_l|].
+    match goal with |- context [existsb ?q stack] => destruct (existsb q stack) end; [apply mono_err_l|].
+    apply mono_bind; [apply eval_script_state_mono|intros; apply mono_refl].
+Qed.
+
+Lemma verify_taproot_mono wstack prog :
+  mono (verify_taproot sha256 ripemd160 sha1 g ck tap_commit wstack prog) (verify_taproot sha256 ripemd160 sha1 f ck tap_commit wstack prog).
+Proof.
+  unfold verify_taproot.
+  destruct (has f SCR_FLAG_TAPROOT) eqn:Ef.
+  - rewrite (Hle _ Ef). cbn [negb].
+    destruct wstack as [|w0 wr]; [apply mono_refl|].
+    destruct (drop_annex (w0 :: wr)) as [|c [|s args]]; [apply mono_refl|apply mono_refl|].
+    destruct (negb (control_size_ok (lenz c))); [apply mono_refl|].
+    destruct (negb (tap_commit c prog s)); [apply mono_refl|].
+    destruct (leaf_is_tapscript c); [apply execute_witness_script_mono|].
+    split_has Hle; mono_steps.
+  - cbn [negb]. intros [] _. reflexivity.
+Qed.
+
+(* the witness stage: if it succeeds under g, it succeeds under f *)
 Lemma verify_witness_program_mono wstack ver prog p2sh :
-  verify_witness_program sha256 ripemd160 sha1 g ck wstack ver prog p2sh = Some (Ok tt) ->
-  verify_witness_program sha256 ripemd160 sha1 f ck wstack ver prog p2sh = Some (Ok tt).
+  verify_witness_program sha256 ripemd160 sha1 g ck tap_commit wstack ver prog p2sh = Some (Ok tt) ->
+  verify_witness_program sha256 ripemd160 sha1 f ck tap_commit wstack ver prog p2sh = Some (Ok tt).
 Proof.
   unfold verify_witness_program. intros H.
   destruct (ver =? 0).
   - destruct (lenz prog =? SCR_WITNESS_V0_SCRIPTHASH_SIZE).
     + destruct wstack as [|sb rest]; [discriminate H|]. destruct (negb (bytes_eqb (sha256 sb) prog)); [discriminate H|].
-      inversion H as [H1]. f_equal. destruct (execute_witness_script_v0 sha256 ripemd160 sha1 g ck rest sb) as [[]|] eqn:E; [|discriminate H1].
-      apply execute_witness_script_mono in E. rewrite E. reflexivity.
+      injection H as H1. f_equal. apply execute_witness_script_mono in H1. exact H1.
     + destruct (lenz prog =? SCR_WITNESS_V0_KEYHASH_SIZE); [|discriminate H].
       destruct (negb (lenz wstack =? 2)); [discriminate H|].
       set (scr := [118; 169] ++ push_encoding prog ++ [136; 172]) in *.
-      inversion H as [H1]. f_equal.
-      match type of H1 with ?x = _ => destruct x as [[]|] eqn:E; [|discriminate H1] end.
-      apply execute_witness_script_mono in E. rewrite E. reflexivity.
+      injection H as H1. f_equal. apply execute_witness_script_mono in H1. exact H1.
   - destruct ((ver =? 1) && (lenz prog =? SCR_WITNESS_V1_TAPROOT_SIZE) && negb p2sh).
-    + destruct (has g SCR_FLAG_TAPROOT) eqn:Eg; [discriminate H|].
-      destruct (has f SCR_FLAG_TAPROOT) eqn:Ef; [apply Hle in Ef; congruence|reflexivity].
+    + injection H as H1. f_equal. apply verify_taproot_mono in H1. exact H1.
     + destruct (negb p2sh && is_pay_to_anchor ver prog); [reflexivity|].
       destruct (has g SCR_FLAG_DISCOURAGE_UPGRADABLE_WITNESS_PROGRAM) eqn:Eg; [discriminate H|].
       destruct (has f SCR_FLAG_DISCOURAGE_UPGRADABLE_WITNESS_PROGRAM) eqn:Ef; [apply Hle in Ef; congruence|reflexivity].
